@@ -107,6 +107,7 @@ structure FInv (c : Cfg) (s : State) (f : Nat) : Prop where
   inc_le : (s.forks f).inc ≤ s.linked
   chk_cur : (s.forks f).pc = .chkHead → (s.forks f).cur = none
   out_le : (s.forks f).out.length ≤ c.len
+  inc_out : (s.forks f).inc ≤ (s.forks f).out.length + 1
 
 structure Inv (c : Cfg) (s : State) : Prop where
   pulled_le : s.pulled ≤ c.len
@@ -141,7 +142,7 @@ set_option hygiene false in
 macro "tee_pre" : tactic => `(tactic| (
     rename_i hp
     have hcur := opt_cases (s.forks f).cur
-    simp [hp, Pc.locked, Pc.fresh, Pc.atBox, Pc.postInc, Pc.between, Pc.notExc, Pc.seen, Pc.quiet, CurOk, EndClean] at a1 a2 a3 a4 a5 a6 a7 a8 a9 a10 a11 a12 a13 a14 a15 a16 a17 a18 a19 a20 a21 a22 a23 a24 a25 a26 a27))
+    simp [hp, Pc.locked, Pc.fresh, Pc.atBox, Pc.postInc, Pc.between, Pc.notExc, Pc.seen, Pc.quiet, CurOk, EndClean] at a1 a2 a3 a4 a5 a6 a7 a8 a9 a10 a11 a12 a13 a14 a15 a16 a17 a18 a19 a20 a21 a22 a23 a24 a25 a26 a27 a28))
 
 set_option hygiene false in
 macro "tee_lock" : tactic => `(tactic| (
@@ -165,7 +166,7 @@ macro "tee_self" : tactic => `(tactic| (
 set_option hygiene false in
 macro "tee_other" : tactic => `(tactic| (
         have := hF g hg
-        obtain ⟨b1, b2, b3, b4, b5, b6, b7, b8, b9, b10, b11, b12, b13, b14, b15, b16, b17, b18, b19, b20, b21, b22, b23, b24, b25, b26, b27⟩ := this
+        obtain ⟨b1, b2, b3, b4, b5, b6, b7, b8, b9, b10, b11, b12, b13, b14, b15, b16, b17, b18, b19, b20, b21, b22, b23, b24, b25, b26, b27, b28⟩ := this
         constructor <;> (try simp only [setFork_ne _ _ _ _ hgf]) <;> (try simp [setFork_ne _ _ _ _ hgf]) <;> first | assumption | grind [EndClean, CurOk, quiet_locked, Pc.locked]))
 
 set_option hygiene false in
